@@ -359,7 +359,9 @@ impl C01 {
 		let mut v = vec![];
 		let deal = run.model.deals[d].clone();
 		let post = run.ex.world.snap(w);
-		let acct = match pre.acct_path(&pre.active) {
+		// the source account is the one the send was initiated from (src_acct_name or the
+		// account active then), whatever account is active at finalize time
+		let acct = match pre.acct_path(&deal.init_acct).or_else(|| pre.acct_path(&pre.active)) {
 			Some(a) => a,
 			None => return v,
 		};
